@@ -35,9 +35,17 @@ def read(source, format=None):
     if format:
         return ProvDocument.deserialize(source=source, format=format.lower())
 
+    content = None
+    if hasattr(source, "read"):
+        # a stream can be read only once: keep what it holds for all attempts
+        content = source.read()
+        source = None
+
     for format in serializers:
         try:
-            return ProvDocument.deserialize(source=source, format=format)
+            return ProvDocument.deserialize(
+                source=source, content=content, format=format
+            )
         except:
             pass
     else:
